@@ -295,6 +295,52 @@ def run(ctx, res):
                 "take/drain calls=%d, clear calls=%d): output written between the read and the clear is lost" % (rng, len(takers), len(clears)),
                 fob.loc())
     res.ok("FLUSHER", "flusher closures (%d) and flush_output_buffer build no status message; flusher waits on the stop channel" % len(fl))
+    # ---- ID-ECHO: "the last message with that id" needs every response to carry the request's id as it was sent
+    # (bencode ids may be integers or byte strings). base_response must copy the raw `id` value of the request.
+    br = P.require_fn("nrepl::base_response")
+    okid = False
+    why = "no insert under the key `id`"
+    for bi, t in br.calls():
+        if not (M.callee_name(t) or "").endswith("HashMap::<K, V, S, A>::insert") or len(t["args"]) < 3:
+            continue
+        k = br.root_of(t["args"][1], through_named=True)
+        kc = None
+        if k[0] == "call" and k[2]["args"]:
+            kr = br.root_of(k[2]["args"][0], through_named=True)
+            if kr[0] == "const":
+                kc = kr[1].get("s") or kr[1].get("text", "")
+            elif kr[0] == "place":
+                # `b"id".to_vec()`: a reference to a byte-string constant held in a temporary
+                dd = [d for d in br.defs.get(kr[1]["l"], []) if d[1] != "term" and d[2]["rv"]["k"] == "use"]
+                if dd:
+                    c0 = M.op_const(dd[0][2]["rv"]["a"])
+                    if c0:
+                        kc = c0.get("s") or c0.get("text", "")
+        if kc is None or str(kc).strip('b"') != "id":
+            continue
+        v = br.root_of(t["args"][2], through_named=True)
+        if v[0] == "call" and (M.callee_name(v[2]) or "").endswith("Clone>::clone") and v[2]["args"]:
+            src = br.root_of(v[2]["args"][0], through_named=True)
+            # the Some payload of dict_get(request, "id")
+            if src[0] == "place":
+                dd = [d for d in br.defs.get(src[1]["l"], []) if d[1] == "term"]
+                if dd and (M.callee_name(dd[0][2]) or "") == "nrepl::dict_get" and len(dd[0][2]["args"]) > 1:
+                    c = br.root_of(dd[0][2]["args"][1])
+                    if c[0] == "const" and c[1].get("s") == "id" and dd[0][2]["args"] and M.op_place(dd[0][2]["args"][0]) is not None:
+                        okid = True
+            why = "the value stored under `id` is not a clone of dict_get(request, \"id\")"
+        else:
+            why = "the value stored under `id` is rebuilt (%s) instead of cloned from the request" % ((M.callee_name(v[2]) or "?").split("::")[-1] if v[0] == "call" else v[0])
+    if okid:
+        res.ok("ID-ECHO", "base_response copies the request's raw `id` value into every response")
+    else:
+        res.bad("ID-ECHO", "nrepl::base_response # id-not-echoed", "responses do not carry the request's id as sent (%s): a request whose id is "
+                "not a non-empty UTF-8 string gets its messages, `done` included, without an id" % why, br.loc())
+    users = [g.path for g in P.funcs.values() if g.path.startswith("nrepl::") for _, t in g.calls() if M.callee_name(t) == "nrepl::base_response"]
+    res.floor("ID-ECHO", "callers of base_response", len(users), 1)
+    # ---- PANIC-INV over the nREPL threads: a worker that dies mid-request never sends its `done`
+    from .. import panicinv as PI
+    PI.run(ctx, res, ["nrepl"], floor_fns=540, floor_sites=350)
     res.floor("FLUSHER", "flusher closures", len(fl), 1)
 
     res.extra["functions_analysed"] = len(memo) + 6
